@@ -935,7 +935,7 @@ pub fn c13(rep: &mut Report, cfg: &Cfg) {
             }
         }
     }
-    rep.notes.push("C13: generated terminating programs (straight-line blocks, counted loops, calls, port writes, console output, optional timer with a handler installed through the MES call; some with a planted unimplemented opcode or unmapped access) loaded by the real loader and run by the real run(); the per-iteration hook compares PC/registers/CCR/timer/pending queue with a twin driven by the same step engine, checks state_sum += k x returned states (k inferred), bus time base, one sync:<total> per crossed multiple of 2,000,000, the whole message sequence, and that run() ends exactly where the twin ends (Ok at the exit address, the failing instruction's error otherwise). Determinism: re-runs idle and under 32 busy threads in-process; the release binary with -m idle / pinned / under load, stdout compared byte for byte with the in-process message log. Cells: (loops, io blocks, timer, sync thresholds crossed, end kind), determinism modes, binary modes, examples.".into());
+    rep.notes.push("C13: generated terminating programs (straight-line blocks, counted loops, calls, port writes, console output, optional timer with a handler installed through the MES call; some with a planted unimplemented opcode or unmapped access) loaded by the real loader and run by the real run(); the per-iteration hook compares PC/registers/CCR/timer/pending queue with a twin driven by the same step engine, checks state_sum += k x returned states (k inferred), one sync:<total> per crossed multiple of 2,000,000, the sequence of sync/stdout/ioport messages (other kinds and repeated port announcements are not compared; port stamps are judged on their own: within the state count before/after the iteration that emitted them, never decreasing), and that run() ends exactly where the twin ends (Ok at the exit address, the failing instruction's error otherwise). The twin tolerates acceptance of a pending request at either end of an iteration. Extra dimensions: state counts preset beyond 2^31/2^32/2^33/2^40, external pin levels, faults directly before the exit address, a timer match steered into the instruction that reaches the exit address. Determinism: re-runs idle and under busy threads in-process; the release binary with -m idle / pinned / under load / with -w / with -i: its stdout must contain the in-process messages in order, its log the final state count, exit status success. Cells: (loops, io blocks, timer, sync thresholds crossed, end kind), determinism modes, binary modes, examples.".into());
 }
 
 pub fn replay(line: &str) -> (bool, String) {
